@@ -94,9 +94,39 @@ func Run(cs Case, c *vrt.Ctx) {
 	var all []jpx.Loc
 	feats := map[string]bool{}
 	dontCare := ""
+	cleanPath := map[string]bool{} // locations selected by a target without slice, filter or negative index
+	var collected []string         // containers a filter target collects
 	for _, t := range cs.Targets {
 		targets = append(targets, t.Build())
 		res := jpx.Eval(t, doc)
+		clean := true
+		for _, f := range t {
+			if f.K == "slice" || f.K == "filter" || (f.K == "nth" && f.N < 0) {
+				clean = false
+			}
+			if f.K == "union" {
+				for _, u := range f.U {
+					if u.Idx != nil && *u.Idx < 0 {
+						clean = false
+					}
+				}
+			}
+		}
+		if clean {
+			for _, l := range res.Locs {
+				cleanPath[locText(l.Path)] = true
+			}
+		}
+		// a target with a filter makes the handler collect the whole container the filter is
+		// applied to; everything inside it is then subject to C17-K3
+		for i, f := range t {
+			if f.K == "filter" {
+				for _, l := range jpx.Eval(t[:i], doc).Locs {
+					collected = append(collected, locText(l.Path))
+				}
+				break
+			}
+		}
 		if res.DontCare != "" {
 			dontCare = res.DontCare
 		}
@@ -199,6 +229,34 @@ func Run(cs Case, c *vrt.Ctx) {
 		if err != nil {
 			c.Fail("error", e.name, fmt.Sprintf("%v; doc %s targets %v", err, text, tstr), tags...)
 			continue
+		}
+		// The recorded findings (negative index, trailing filter) only lose matches of the
+		// targets that have those features: what a clean target selects - and nothing else
+		// selects from further out - is still due, whatever other targets are listed with it.
+		if !feats["has:slice"] {
+			for _, w := range want {
+				if !cleanPath[w.path] {
+					continue
+				}
+				inside := false
+				for _, cp := range collected {
+					if w.path == cp || strings.HasPrefix(w.path, cp+".") || strings.HasPrefix(w.path, cp+"[") {
+						inside = true
+					}
+				}
+				if inside {
+					continue
+				}
+				found := false
+				for _, g := range got {
+					if g == w {
+						found = true
+					}
+				}
+				if !found {
+					c.Fail("clean-target-match-missing", e.name, fmt.Sprintf("doc %s targets %v chunk %+v: %v is selected by a target without slice, filter or negative index, outside every container a filter target collects, but was not delivered; got %v", clip(text), tstr, cs.Chunk, w, got), "multi-target-clean")
+				}
+			}
 		}
 		if fmt.Sprint(got) != fmt.Sprint(want) {
 			kind := "wrong-matches"
